@@ -142,6 +142,10 @@ def check_case(case, rec):
     schema = env.schema("8.3.0")
     dd = DefinitionDict(DEFS, schema)
     df = pd.DataFrame(case["rows"], columns=["onset", "HED"])
+    if len(case["rows"]) % 2 == 1:
+        # a frame whose index is not 0..n-1 (what is left after filtering or re-ordering another frame)
+        lab = [3 * i + 7 for i in range(len(df))]
+        df.index = lab[len(lab) // 2:] + lab[:len(lab) // 2]
     try:
         issues = TabularInput(df.copy()).validate(schema, extra_def_dicts=dd)
     except Exception as ex:  # noqa
